@@ -90,8 +90,8 @@ static void build_sg (void)
   for (r = 0; r < nr; r++)
     {
       struct grule *R = &G.rule[r];
-      R->lhs = r == 0 ? 3 : 3 + sx_choice ("lhs", 2);
-      R->n = (r == 0 && sx_param ("len0", -1) >= 0) ? (int) sx_param ("len0", -1) : sx_choice ("rhslen", maxl + 1);
+      R->lhs = r == 0 ? 3 : (r == 1 && sx_param ("lhs1", -1) >= 0) ? 3 + (int) sx_param ("lhs1", -1) : 3 + sx_choice ("lhs", 2);
+      R->n = (r == 0 && sx_param ("len0", -1) >= 0) ? (int) sx_param ("len0", -1) : (r == 1 && sx_param ("len1", -1) >= 0) ? (int) sx_param ("len1", -1) : sx_choice ("rhslen", maxl + 1);
       for (k = 0; k < R->n; k++) R->rhs[k] = sx_choice ("rhs", 5);
       R->anode = sg_names[r]; R->cost = 1; R->ntr = R->n; for (k = 0; k < R->n; k++) R->tr[k] = k;
     }
